@@ -699,13 +699,186 @@ theorem filter_kleene (names : List Nat) (souter : List (List Nat)) (outer : Lis
     simp only [keepMsg, hev r hm]
     rcases t.kleene (envOf names (r.vals.map triOf)) with _ | _ | _ <;> rfl
 
+/-! ## From the logical expression: the typechecker's types are sound, so no typing hypothesis remains -/
+
+/-- the record conforms to the column types: a NULL only in a column whose type admits NULL -/
+def rowConforms (Γ : List BTy) (ρ : Nat → Tri) : Prop :=
+  ∀ (n : Nat) (ty : BTy), Γ[n]? = some ty → ρ n = none → ty.nullable = true
+
+/-- **The typechecker's output is well typed** (`typecheckU` mirrors `logical.*.Typecheck` on the boolean fragment):
+    the typed tree it produces has the reported type, is error-free, binds its variables in the schema, its static
+    types are sound on every conforming record, and it denotes the same Kleene function as the source expression. -/
+theorem typecheckU_sound (Γ : List BTy) (u : UTree) : ∀ (t : TTree) (bt : BTy), typecheckU Γ u = some (t, bt) →
+    t.ty = bt.toTy ∧ t.errorFree = true ∧ t.bound (List.range Γ.length) = true ∧
+    (∀ ρ, rowConforms Γ ρ → t.ok ρ = true) ∧ (∀ ρ, t.kleene ρ = u.kleene ρ) := by
+  induction u with
+  | const c =>
+    intro t bt h
+    simp only [typecheckU, Option.some.injEq, Prod.mk.injEq] at h
+    obtain ⟨rfl, rfl⟩ := h
+    refine ⟨rfl, rfl, rfl, fun ρ _ => ?_, fun ρ => rfl⟩
+    rcases c with _ | _ | _ <;> rfl
+  | var n =>
+    intro t bt h
+    simp only [typecheckU] at h
+    cases hg : Γ[n]? with
+    | none => simp [hg] at h
+    | some ty =>
+      simp only [hg, Option.some.injEq, Prod.mk.injEq] at h
+      obtain ⟨rfl, rfl⟩ := h
+      have hn : n < Γ.length := by
+        rcases Nat.lt_or_ge n Γ.length with h | h
+        · exact h
+        · rw [List.getElem?_eq_none h] at hg; cases hg
+      refine ⟨rfl, rfl, by simp [TTree.bound, findField_of_range n _ hn], fun ρ hρ => ?_, fun ρ => rfl⟩
+      simp only [TTree.ok, Bool.or_eq_true, nullIs_toTy]
+      cases hr : ρ n with
+      | none => exact Or.inr (hρ n ty hg hr)
+      | some _ => exact Or.inl rfl
+  | and l r ihl ihr =>
+    intro t bt h
+    simp only [typecheckU] at h
+    cases hl : typecheckU Γ l with
+    | none => simp [hl] at h
+    | some pl =>
+      cases hr : typecheckU Γ r with
+      | none => simp [hl, hr] at h
+      | some pr =>
+        obtain ⟨tl, bl⟩ := pl
+        obtain ⟨tr, br⟩ := pr
+        simp only [hl, hr, Option.some.injEq, Prod.mk.injEq] at h
+        obtain ⟨rfl, rfl⟩ := h
+        obtain ⟨l1, l2, l3, l4, l5⟩ := ihl tl bl hl
+        obtain ⟨r1, r2, r3, r4, r5⟩ := ihr tr br hr
+        refine ⟨rfl, by simp [TTree.errorFree, TTree.errorFreeList, l2, r2],
+          by simp [TTree.bound, TTree.boundList, l3, r3], fun ρ hρ => ?_, fun ρ => ?_⟩
+        · simp only [TTree.ok, TTree.okList, l4 ρ hρ, r4 ρ hρ, anyNullable, l1, r1, nullIs_toTy]
+          cases bl <;> cases br <;> decide
+        · simp [TTree.kleene, TTree.kleeneAnd, UTree.kleene, l5, r5, and3_true_right]
+  | or l r ihl ihr =>
+    intro t bt h
+    simp only [typecheckU] at h
+    cases hl : typecheckU Γ l with
+    | none => simp [hl] at h
+    | some pl =>
+      cases hr : typecheckU Γ r with
+      | none => simp [hl, hr] at h
+      | some pr =>
+        obtain ⟨tl, bl⟩ := pl
+        obtain ⟨tr, br⟩ := pr
+        simp only [hl, hr, Option.some.injEq, Prod.mk.injEq] at h
+        obtain ⟨rfl, rfl⟩ := h
+        obtain ⟨l1, l2, l3, l4, l5⟩ := ihl tl bl hl
+        obtain ⟨r1, r2, r3, r4, r5⟩ := ihr tr br hr
+        refine ⟨rfl, by simp [TTree.errorFree, TTree.errorFreeList, l2, r2],
+          by simp [TTree.bound, TTree.boundList, l3, r3], fun ρ hρ => ?_, fun ρ => ?_⟩
+        · simp only [TTree.ok, TTree.okList, l4 ρ hρ, r4 ρ hρ, anyNullable, l1, r1, nullIs_toTy]
+          cases bl <;> cases br <;> decide
+        · simp [TTree.kleene, TTree.kleeneOr, UTree.kleene, l5, r5, or3_false_right]
+  | not a iha =>
+    intro t bt h
+    simp only [typecheckU] at h
+    cases ha : typecheckU Γ a with
+    | none => simp [ha] at h
+    | some pa =>
+      obtain ⟨ta, ba⟩ := pa
+      obtain ⟨a1, a2, a3, a4, a5⟩ := iha ta ba ha
+      cases ba with
+      | n => simp [ha] at h
+      | b =>
+        simp only [ha, Option.some.injEq, Prod.mk.injEq] at h
+        obtain ⟨rfl, rfl⟩ := h
+        refine ⟨rfl, by simpa [TTree.errorFree] using a2, by simpa [TTree.bound] using a3, fun ρ hρ => ?_, fun ρ => ?_⟩
+        · simp [TTree.ok, a4 ρ hρ, a1, nullIs_toTy, BTy.nullable]
+        · simp [TTree.kleene, UTree.kleene, a5]
+      | bn =>
+        simp only [ha, Option.some.injEq, Prod.mk.injEq] at h
+        obtain ⟨rfl, rfl⟩ := h
+        refine ⟨rfl, by simpa [TTree.errorFree] using a2, by simpa [TTree.bound] using a3, fun ρ hρ => ?_, fun ρ => ?_⟩
+        · simp [TTree.ok, a4 ρ hρ, a1, nullIs_toTy, BTy.nullable]
+        · simp [TTree.kleene, UTree.kleene, a5]
+  | isNull a iha =>
+    intro t bt h
+    simp only [typecheckU] at h
+    cases ha : typecheckU Γ a with
+    | none => simp [ha] at h
+    | some pa =>
+      obtain ⟨ta, ba⟩ := pa
+      obtain ⟨a1, a2, a3, a4, a5⟩ := iha ta ba ha
+      simp only [ha, Option.some.injEq, Prod.mk.injEq] at h
+      obtain ⟨rfl, rfl⟩ := h
+      exact ⟨rfl, by simpa [TTree.errorFree] using a2, by simpa [TTree.bound] using a3,
+        fun ρ hρ => by simpa [TTree.ok] using a4 ρ hρ, fun ρ => by simp [TTree.kleene, UTree.kleene, a5]⟩
+  | isNotNull a iha =>
+    intro t bt h
+    simp only [typecheckU] at h
+    cases ha : typecheckU Γ a with
+    | none => simp [ha] at h
+    | some pa =>
+      obtain ⟨ta, ba⟩ := pa
+      obtain ⟨a1, a2, a3, a4, a5⟩ := iha ta ba ha
+      simp only [ha, Option.some.injEq, Prod.mk.injEq] at h
+      obtain ⟨rfl, rfl⟩ := h
+      exact ⟨rfl, by simpa [TTree.errorFree] using a2, by simpa [TTree.bound] using a3,
+        fun ρ hρ => by simpa [TTree.ok] using a4 ρ hρ, fun ρ => by simp [TTree.kleene, UTree.kleene, a5]⟩
+
+/-- **End to end for boolean SQL expressions** (any depth): typecheck → materialize → evaluate on a record that
+    conforms to the column types gives the Kleene value of the source expression.  No typing hypothesis. -/
+theorem sql_tree_kleene (Γ : List BTy) (u : UTree) (t : TTree) (bt : BTy) (h : typecheckU Γ u = some (t, bt))
+    (tris : List Tri) (hlen : tris.length = Γ.length)
+    (hrow : ∀ (n : Nat) (ty : BTy), Γ[n]? = some ty → tris[n]? = some none → ty.nullable = true)
+    (outer : List (List Value)) (souter : List (List Nat)) :
+    eval (tris.map Tri.toValue :: outer) (materialize (List.range Γ.length :: souter) t.toP) =
+      .val (u.kleene (fun n => (tris[n]?).getD none)).toValue := by
+  obtain ⟨_, h2, h3, h4, h5⟩ := typecheckU_sound Γ u t bt h
+  have henv : envOf (List.range Γ.length) tris = fun n => (tris[n]?).getD none := by
+    funext n
+    simp only [envOf]
+    rcases Nat.lt_or_ge n Γ.length with hn | hn
+    · rw [findField_of_range n _ hn]
+    · have : findField n 0 (List.range Γ.length) = none := by
+        cases hf : findField n 0 (List.range Γ.length) with
+        | none => rfl
+        | some i =>
+          -- the field found is `n` itself, which is out of range
+          exfalso
+          have hmem : ∀ (fs : List Nat) (k i : Nat), findField n k fs = some i → n ∈ fs := by
+            intro fs
+            induction fs with
+            | nil => intro k i h; simp [findField] at h
+            | cons f fs ih =>
+              intro k i h
+              simp only [findField] at h
+              split at h
+              · rename_i heq; simp at heq; simp [heq]
+              · exact List.mem_cons_of_mem _ (ih _ _ h)
+          have := hmem _ _ _ hf
+          simp at this
+          omega
+      rw [this, List.getElem?_eq_none (by omega)]
+      rfl
+  have hconf : rowConforms Γ (envOf (List.range Γ.length) tris) := by
+    intro n cty hb hn
+    rw [henv] at hn
+    simp only at hn
+    have hlt : n < tris.length := by
+      rcases Nat.lt_or_ge n Γ.length with h | h
+      · omega
+      · rw [List.getElem?_eq_none h] at hb; cases hb
+    have : tris[n]? = some tris[n] := by simp [hlt]
+    rw [this] at hn
+    simp only [Option.getD_some] at hn
+    exact hrow n cty hb (by rw [this, hn])
+  rw [tree_kleene (List.range Γ.length) tris outer souter (by simp [hlen]) t h2 h3 (h4 _ hconf), h5, henv]
+
 /-! ## The property, full strength -/
 
 /-- **C11**, as stated: (1) AND / OR are the Kleene folds for every operand list; (2) NOT's table; (3) every
     descriptor that `functions.go` marks `Strict` — and that is all of them except the NULL handlers, the six
     comparisons included — returns NULL whenever a (well-typed) argument is NULL; (4) IS [NOT] NULL return a Boolean;
     (5) boolean expression trees of any depth evaluate to their Kleene value; (6) Filter keeps exactly the rows whose
-    predicate is TRUE. -/
+    predicate is TRUE; (7) for logical (SQL-level) boolean expressions the types the typechecker assigns are sound,
+    so typecheck → materialize → evaluate is the Kleene value with no typing hypothesis. -/
 def Statement : Prop :=
   (∀ (env : List (List Value)) (ts : List Tri),
       eval env (.and (ts.map fun t => .const t.toValue)) = .val (kAnd ts).toValue ∧
@@ -734,7 +907,13 @@ def Statement : Prop :=
         .val (t.kleene (envOf names tris)).toValue) ∧
   (∀ (pred : Expr) (outer : List (List Value)) (msgs : List Msg),
       (∀ r, Msg.data r ∈ msgs → ∃ v, eval (r.vals :: outer) pred = .val v) →
-      filterRun pred outer msgs = (msgs.filter (keepMsg pred outer), .ok))
+      filterRun pred outer msgs = (msgs.filter (keepMsg pred outer), .ok)) ∧
+  (∀ (Γ : List BTy) (u : UTree) (t : TTree) (bt : BTy), typecheckU Γ u = some (t, bt) →
+      ∀ (tris : List Tri), tris.length = Γ.length →
+      (∀ (n : Nat) (ty : BTy), Γ[n]? = some ty → tris[n]? = some none → ty.nullable = true) →
+      ∀ (outer : List (List Value)) (souter : List (List Nat)),
+        eval (tris.map Tri.toValue :: outer) (materialize (List.range Γ.length :: souter) t.toP) =
+          .val (u.kleene (fun n => (tris[n]?).getD none)).toValue)
 
 /-- **C11, full strength, on the current tree.** -/
 theorem C11_full : Statement :=
@@ -746,7 +925,8 @@ theorem C11_full : Statement :=
    comparisons_strict,
    fun env schema ty a v hv => is_null_never_null env schema ty a v hv,
    fun names tris outer souter hlen t hef hb hok => tree_kleene names tris outer souter hlen t hef hb hok,
-   fun pred outer msgs h => filter_spec pred outer msgs h⟩
+   fun pred outer msgs h => filter_spec pred outer msgs h,
+   fun Γ u t bt h tris hlen hrow outer souter => sql_tree_kleene Γ u t bt h tris hlen hrow outer souter⟩
 
 /-! ## Non-vacuity -/
 
@@ -792,6 +972,10 @@ theorem unchecked_null_reaches_body :
 def exTree : TTree := .not tBN (.and tBN [.var tBN 0, .const .bool (some true)])
 example : exTree.errorFree = true ∧ exTree.bound [0] = true ∧ exTree.ok (envOf [0] [none]) = true ∧
     exTree.kleene (envOf [0] [none]) = none ∧ exTree.kleene (envOf [0] [some true]) = some false := by decide
+
+/-- the typechecker accepts NOT (c0 AND TRUE) over a nullable column and types it NULL|Boolean; it rejects NOT NULL -/
+example : ((typecheckU [.bn] (.not (.and (.var 0) (.const (some true))))).map (·.2)) = some .bn := by decide
+example : (typecheckU [.bn] (.not (.const none))).isNone = true := by decide
 
 /-- Filter on a three-row stream with a watermark: only the TRUE row and the watermark remain -/
 example : filterRun (.var 0 0) []
